@@ -511,6 +511,35 @@ set_ior(Bucket* self, PyObject* other)
     return (PyObject*)self;
 }
 
+/* For the in-place symmetric difference:  an iterator over the DISTINCT
+ * elements of other.  As for set.symmetric_difference_update, an element
+ * that occurs twice in a plain iterable is toggled once.  Our own containers
+ * never hold a key twice; anything else goes through a temporary Set, which
+ * also converts the elements to keys before self is touched.
+ */
+static PyObject *
+_distinct_elements_iter(PyObject *other)
+{
+    PyObject *iter;
+    PyObject *distinct;
+
+    iter = PyObject_GetIter(other);
+    if (iter == NULL)
+        return NULL;
+    if (PyObject_TypeCheck(other, &SetType)
+        || PyObject_TypeCheck(other, &TreeSetType)
+        || PyObject_TypeCheck(other, &BucketType)
+        || PyObject_TypeCheck(other, &BTreeType))
+        return iter;
+    distinct = PyObject_CallFunctionObjArgs((PyObject *)&SetType, iter, NULL);
+    Py_DECREF(iter);
+    if (distinct == NULL)
+        return NULL;
+    iter = PyObject_GetIter(distinct);
+    Py_DECREF(distinct);
+    return iter;
+}
+
 static PyObject*
 set_ixor(Bucket* self, PyObject* other)
 {
@@ -532,6 +561,11 @@ set_ixor(Bucket* self, PyObject* other)
             PyErr_Clear();
             Py_INCREF(Py_NotImplemented);
             return Py_NotImplemented;
+        }
+        Py_DECREF(iter);
+        iter = _distinct_elements_iter(other);
+        if (iter == NULL) {
+            goto err;
         }
 
         while (1) {
